@@ -1,9 +1,11 @@
 /-
 Line-protocol driver of C11 (model + spec monitor).  Ops:
 
-  C11.req    firstRun usersExist method target cookie basic ctype bodyLen
+  C11.req    firstRun usersExist method target cookie basic ctype bodyLen [hdrs]
              => path muxkind pattern kind status location contentLengthSeen
      bodyLen is `n` (known length) or `u<n>` (unknown length, n bytes sent).
+     hdrs (optional) is `-` or a comma-separated list of tokens naming further
+     request headers the harness adds (Origin, Access-Control-Request-*, ...).
      one request served by the real admin mux.  `path` (URL.Path as the
      handlers see it), `muxkind` (route | muxredir | muxnotfound) and `pattern`
      (the pattern `ServeMux.Handler` reports) are observations of net/http that
@@ -70,8 +72,15 @@ def parseLen (s : String) : Option Int :=
 
 def showLen (s : String) : Option Int := s.toInt?
 
-def parseReq (firstRun usersExist method path cookie basic ctype bodyLen : String) : Option Req := do
+/-- The other headers of the request: a comma-separated list of tokens of the
+harness's vocabulary (`-` = none).  The model carries them and ignores them. -/
+def parseHdrs (s : String) : List (Bytes × Bytes) :=
+  if s == "-" then [] else (s.splitOn ",").map (fun t => (Bytes.ofString t, []))
+
+def parseReq (firstRun usersExist method path cookie basic ctype bodyLen : String)
+    (hdrs : String := "-") : Option Req := do
   pure {
+    headers := parseHdrs hdrs
     path := ← hexDecode path
     method := ← hexDecode method
     cookie := ← parseCookie cookie
@@ -85,10 +94,14 @@ def specField (req : Req) (declared : Option Bytes) (o : Obs) : Option String :=
   specCheck req declared o
 
 def stepReq (ins impl : List String) : Option String := do
+  -- the header field is optional (older corpus lines do not have it)
+  let (ins, hdrs) := match ins with
+    | [a, b, c, d, e, f, g, h, hdrs] => ([a, b, c, d, e, f, g, h], hdrs)
+    | other => (other, "-")
   match ins, impl with
   | [firstRun, usersExist, method, _target, cookie, basic, ctype, bodyLen],
     [path, muxkind, pattern, kind, _status, _location, cl] =>
-    let req ← parseReq firstRun usersExist method path cookie basic ctype bodyLen
+    let req ← parseReq firstRun usersExist method path cookie basic ctype bodyLen hdrs
     let pat ← hexDecode pattern
     let implObs ← parseObs kind
     let seen ← showLen cl
@@ -132,10 +145,13 @@ def parseChain (s : String) : Option (List Wrapper) :=
   if s == "-" then some [] else (s.splitOn ",").mapM parseWrapper
 
 def stepChain (ins impl : List String) : Option String := do
+  let (ins, hdrs) := match ins with
+    | [a, b, c, d, e, f, g, h, i, hdrs] => ([a, b, c, d, e, f, g, h, i], hdrs)
+    | other => (other, "-")
   match ins, impl with
   | [chain, firstRun, usersExist, method, path, cookie, basic, ctype, bodyLen], [kind] =>
     let ch ← parseChain chain
-    let req ← parseReq firstRun usersExist method path cookie basic ctype bodyLen
+    let req ← parseReq firstRun usersExist method path cookie basic ctype bodyLen hdrs
     let implObs ← parseObs kind
     let m := Obs.resp (run ch (fun _ => .ran) req)
     -- the declared method of a free-standing chain is that of its ensure wrapper
